@@ -140,7 +140,7 @@ func VerifC15ProviderSet() {
 	e := newVEnv(nv)
 	m := vh.Int64("M")
 	vh.Assume(m >= 1)
-	vh.Assume(m <= int64(nv)+1)
+	vh.Assume(m <= 1<<62) // any positive parameter value, far beyond the number of validators
 	e.k.SetParams(e.ctx, vParams(m, 600))
 	// arbitrary previously recorded set (keys = provider keys of the universe)
 	prev := vNewSet(nv)
@@ -165,9 +165,9 @@ func VerifC15ProviderSet() {
 	stored, err2 := e.k.GetLastProviderConsensusValSet(e.ctx)
 	vh.Assert(err2 == nil, "C15.read-back")
 	ord := e.st.order()
-	want := int(m)
-	if want > len(ord) {
-		want = len(ord)
+	want := len(ord)
+	if m < int64(len(ord)) {
+		want = vh.ConcretizeInt(int(m), 0, len(ord))
 	}
 	vh.Assert(len(stored) == want, "C15.size-is-min(M,bonded)")
 	vh.Assert(int64(len(stored)) <= m, "C15.never-exceeds-M")
